@@ -223,7 +223,7 @@ fn build(alpha: &[&str], digits: &[u8], out: &mut String) {
 pub fn run(ctx: &Ctx) {
     ctx.set_rule(
         "strings: every string up to the length bound over the 13-symbol alphabet \
-         {& < > ' \" # x ; 0 1 a é space}; references: every code point 0..=0x11000F plus 2^32-1, 2^32 \
+         {& < > ' \" # x ; 0 1 a é space}; references: every code point 0..=0x11000F plus 2^32-1, 2^32 (and every scalar value escaped alone, as a{c}< and as &{c} + double quote) \
          in decimal / lower hex / upper hex with 0-2 leading zeros; names: &w; for every w up to 5 letters over \
          the letters of the five predefined names, and every upper/lower-case variant of the five names; numeric bodies: \
          &#w; for every w up to 5/6 symbols over {0 1 4 9 x X + - a F _ space}. non-trivial = the string contains '&' or a character \
@@ -322,6 +322,18 @@ pub fn run(ctx: &Ctx) {
                         cp > 0x10FFFF,
                         (0xD800..0xE000).contains(&cp),
                     )));
+                }
+            }
+            // the escaping half on the same domain: every scalar value, alone and between an
+            // ordinary and a special character (escaped form free of forbidden characters,
+            // unescape inverts it, borrowed when nothing needs escaping)
+            if let Some(c) = u32::try_from(cp).ok().and_then(char::from_u32) {
+                for s in [c.to_string(), format!("a{}<", c), format!("&{}\"", c)] {
+                    acc.evaluations += 1;
+                    acc.traces += 1;
+                    if let Err(what) = check_string2(&s, None, false) {
+                        acc.violation((1, i * 9), what, json!({"kind": "string", "s": s}));
+                    }
                 }
             }
             if i % 4099 == 0 {
